@@ -1,7 +1,7 @@
 //! C16: path_to_filetype on arbitrary single-component names.
 //! in : <hex name> TAB <0|1 unparseable_are_text>
 //! out: <code>   (numbering = Coq `result_code`)
-use crate::util::*;
+use s4verif::*;
 use s4lib::common::{FileType, FileTypeArchive, FileTypeFixedStruct};
 use s4lib::readers::filepreprocessor::{path_to_filetype, PathToFiletypeResult};
 use std::ffi::OsStr;
@@ -43,7 +43,7 @@ pub fn code(r: PathToFiletypeResult) -> u32 {
     }
 }
 
-pub fn run() {
+fn main() {
     for line in stdin_lines() {
         let mut it = line.split('\t');
         let name = unhex(it.next().unwrap_or(""));
